@@ -1391,7 +1391,9 @@ func SelectStrategy(n *nfa.NFA, re *syntax.Regexp, literals *literal.Seq, config
 	isEndAnchored := re != nil && nfa.IsPatternEndAnchored(re)
 	hasStartAnchor := re != nil && nfa.IsPatternStartAnchored(re)
 
-	if re != nil && config.EnableDFA && isEndAnchored && !isStartAnchored && !hasStartAnchor {
+	// Word boundaries are excluded as well: the reverse DFA does not evaluate \b/\B
+	// at the match start against the byte before it (\bab$ matched "bab").
+	if re != nil && config.EnableDFA && isEndAnchored && !isStartAnchored && !hasStartAnchor && !hasWordBoundary(re) {
 		// Perfect candidate for reverse search
 		// Example: "pattern.*suffix$" on large haystack
 		// Forward: O(n*m) tries, Reverse: O(m) one try
